@@ -156,7 +156,8 @@ class Report:
         return f
 
     def floor(self, what: str, got: int, minimum: int):
-        """Record a vacuity floor; a shortfall is an analysis error (exit 2)."""
+        """Record a vacuity floor: zero matches where instances were confirmed is an analysis error (exit 2);
+        fewer matches than confirmed is recorded as an undecided obligation (see ``analyse``)."""
         self.floors.append((what, got, minimum))
 
     def count(self, rule=None, verdict=None):
@@ -217,8 +218,16 @@ def analyse(fn, root: Path, tier: str = "quick", overlay=None, seed=0):
                     f"floor missed for {what}: matched {got}, confirmed by hand {minimum} — "
                     "an anchor moved or a rule went vacuous"
                 )
-                # a refutation names a concrete construct and stands on its own; a missed floor
-                # alone (nothing refuted) must never look like a pass
+                if got > 0:
+                    # fewer instances than were confirmed on the pinned tree, but the rule is not vacuous: code was restructured
+                    # (a helper extracted, two branches merged).  The shortfall is recorded as an undecided obligation, it is
+                    # neither a pass of the missing instances nor an alarm (benign refactorings by independent agents hit this).
+                    report.unknown("floor", what, f"matched {got} instance(s), {minimum} were confirmed on the pinned tree: "
+                                   "the others are no longer recognised after a restructuring and are not decided")
+                    report.note(msg.replace("floor missed", "soft floor"))
+                    continue
+                # a refutation names a concrete construct and stands on its own; a rule that matches nothing at all
+                # (nothing refuted) must never look like a pass
                 if not report.findings:
                     raise AnalysisError(msg)
                 report.note(msg)
